@@ -174,6 +174,7 @@ def evaluate(chk, pool, layouts, label, dist):
     prelude = "Definition HEADS : list bytes := %s." % vlib.coq(pool.heads())
     model = vlib.run_model(chk.pid, "Run.ShowProducer", exprs, prelude=prelude)
     groups = {}
+    kf = {e["key"]: e for e in vlib.known_findings(chk.pid)}
     dis = []
     for (args, ll, cov, ab, gid), m, case, ri, rm in zip(layouts, margs_l, cases, impl, model):
         chk.count()
@@ -189,6 +190,11 @@ def evaluate(chk, pool, layouts, label, dist):
         else:
             gi = eng_items(ri)
             got = contents(gi)
+        if got != exp and isinstance(got, str) and got.startswith("panic:Failed to parse ZIP file") and "dir-named-zip" in kf \
+                and any(a["kind"] == "dir" and a["name"].endswith(".zip") for a in m):
+            chk.known(kf["dir-named-zip"])       # re-confirmed on the implementation; nothing else to compare for this case
+            dist["known_dir_named_zip"] += 1
+            continue
         if got != exp:
             chk.violation({"kind": "oracle", "engine": "producer", "case": small, "impl": got, "expected": exp,
                            "clause": "every usable artifact is used exactly once (info/xml per file, gcno with the gcda of the same relative name of every archive, "
@@ -334,6 +340,13 @@ def special_stream(pool):
         for extra in ([], [["ok.info", n["info_a"], "info"]]):
             for kind in ("dir", "zip"):
                 out.append(([{"kind": kind, "name": "c." + kind if kind == "zip" else "c", "entries": [["r.xml", n[key], "xml"]] + extra}], False, False, False, ("doctype", key, bool(extra), kind)))
+    # directory arguments named like files of interest (alone => must not fail; next to other input => must not be dropped), incl. a nested one
+    for nm in ("coverage.info", "reports.xml", "prof.profraw", "m.profdata", "linked-files-map.json", "notes.gcno", "data.gcda", "x.info/y.xml"):
+        d1 = {"kind": "dir", "name": nm, "entries": [["a.info", n["info_a"], "info"], ["sub.xml/r.xml", n["xml_1"], "xml"], ["obj/file.gcno", n["llvm_gcno_file"], "gcno"], ["obj/file.gcda", n["llvm_gcda_file"], "gcda"]]}
+        out.append(([d1], False, False, False, ("dir-ext", nm, 0)))
+        out.append(([{"kind": "zip", "name": "other.info.zip", "entries": [["b.info", n["info_b"], "info"]]}, d1], True, True, True, ("dir-ext", nm, 1)))
+    # known finding dir-named-zip: a DIRECTORY argument whose name ends in .zip is opened as an archive
+    out.append(([{"kind": "dir", "name": "cov.zip", "entries": [["a.info", n["info_a"], "info"]]}], False, False, False, ("dir-named-zip", 0)))
     # a gcda archive alone must fail; gcno alone with --filter covered yields nothing but does not fail
     out.append(([{"kind": "zip", "name": "g.zip", "entries": [["m.gcda", n["gcc_gcda_main"], "gcda"]]}], False, False, False, ("gcda-only", 0)))
     out.append(([{"kind": "zip", "name": "g.zip", "entries": [["m.gcno", n["gcc_gcno_main"], "gcno"]]}], False, True, False, ("gcno-only-covered", 0)))
@@ -476,7 +489,8 @@ def cli_stream(chk, pool, n, dist):
         nd = split(fixtures, ("dir", "dir"))
         nz = split(fixtures, ("zip", "zip"))
         mz = split(fixtures, ("zip", "dir"))
-        group("fixtures", [one("dir", fixtures), [nd[0], nd[1]], [nd[1], nd[0]], one("zip", fixtures), [nz[1], nz[0]], [mz[0], mz[1]], one("dir", undot(fixtures))], filt, False)
+        group("fixtures", [one("dir", fixtures), [nd[0], nd[1]], [nd[1], nd[0]], one("zip", fixtures), [nz[1], nz[0]], [mz[0], mz[1]], one("dir", undot(fixtures)),
+                           [dict(one("dir", fixtures)[0], name="cov.profraw")], [dict(nd[1], name="data.gcda"), dict(nd[0], name="notes.xml")]], filt, False)
         # everything, random packagings (one of them with the dotted stems renamed)
         for i in range(n):
             group("full%d" % i, [L.gen_layout(rng, base), L.gen_layout(rng, base), L.gen_layout(rng, undot(base))], filt, i == 0 and not filt)
@@ -497,7 +511,7 @@ def run(chk):
     chk.proofs()
     pool = L.standard_pool()
     dist = dict.fromkeys(["zip", "dir", "plain", "nested_arg", "llvm", "covered", "abs_paths", "panic_no_input", "items", "gcc_path_items",
-                          "multi_gcda_buffers", "unsafe_zip_members", "short_or_straddling_jacoco_used", "cli_layout_groups", "cli_records", "cli_no_input_runs"], 0)
+                          "multi_gcda_buffers", "known_dir_named_zip", "unsafe_zip_members", "short_or_straddling_jacoco_used", "cli_layout_groups", "cli_records", "cli_no_input_runs"], 0)
     sp = special_stream(pool)             # may add blobs: before the generated stream renders the pool
     lay = gen_stream(chk, pool, 24 if chk.tier == "quick" else 150)
     groups = evaluate(chk, pool, lay, "gen", dist)
@@ -507,11 +521,11 @@ def run(chk):
     chk.extra["distribution"] = dist
     chk.cov["rule"] = ("a fixed pool of artifacts (lcov files incl. two with the same name and different bytes, one shipped twice byte-identically under the same relative name, members under dot-named directories and with dot-prefixed names, 4 JaCoCo reports (204, 256, 300 bytes and one with a two-byte character across byte 256), 10 decoys incl. a DTD marker after byte 256, 3 LLVM-format and 2 GCC-format "
                        "gcno with 0-2 gcda each, an orphan gcda, linked-files-map.json, optional profraw files; random subsets incl. nothing usable) distributed at random over "
-                       "1-5 directories / zip archives / plain file arguments with random nesting, nested-subdirectory arguments, relative and absolute argument spellings, "
+                       "1-5 directories / zip archives / plain file arguments with random nesting (directory and nested-directory names also ending in .info/.json/.xml/.profraw/.profdata/.gcno/.gcda, nested *.zip directories, zips named *.info.zip), nested-subdirectory arguments, relative and absolute argument spellings, "
                        "each packaging in two argument orders, --llvm on/off x --filter covered on/off; grcov::producer (unbounded channel, items and extracted files read back) "
                        "vs Gallina work_items (item for item, incl. archive names, link numbers and temp-file names) vs the driver's reading of the property; all packagings of "
                        "one artifact set must give one multiset of item contents; hand-made stream (symlinks, duplicate zip names, the 256-byte signature window incl. invalid UTF-8 around the marker, zip members with absolute / '..' names); CLI stream (real binary, so main.rs's option plumbing is covered): LLVM fixtures incl. an orphan gcno, dotted stems (file.c.gcno) next to a decoy file.gcda, "
-                       "as one dir / notes+data dirs in both orders / zips / renamed stems, and the full pool in random packagings, each with and without --llvm x --filter {none, covered, uncovered}: one report per artifact set, "
+                       "as one dir / notes+data dirs in both orders / zips / renamed stems / directories named cov.profraw, notes.xml, data.gcda, and the full pool in random packagings, each with and without --llvm x --filter {none, covered, uncovered}: one report per artifact set, "
                        "orphan lines = llvm-cov's own listing (reader.c.0.gcov) with zero counts unless covered only; no usable input exits non-zero; non-trivial = distinct layout producing items")
     chk.cov["trusted_base"] = ["Coq kernel; vm_compute for the correspondence",
                                "walkdir and the zip crate: the list of (relative name, content) of each archive is computed by the driver from its own layout description "
@@ -531,7 +545,7 @@ def replay(chk, path):
     if "case" in r and "args" in r["case"]:
         c = r["case"]
         dist = dict.fromkeys(["zip", "dir", "plain", "nested_arg", "llvm", "covered", "abs_paths", "panic_no_input", "items", "gcc_path_items",
-                              "multi_gcda_buffers", "unsafe_zip_members", "short_or_straddling_jacoco_used"], 0)
+                              "multi_gcda_buffers", "known_dir_named_zip", "unsafe_zip_members", "short_or_straddling_jacoco_used"], 0)
         evaluate(chk, pool, [(c["args"], c["is_llvm"], c["covered"], c.get("abs", False), "replay")], "replay", dist)
     else:
         chk.proofs()
